@@ -32,7 +32,7 @@ static void build_mops(void)
 	static const long ints[] = { 0, -1, LONG_MAX };
 	static const char *strs[] = { "x", "", NULL };
 	static const int bools[] = { 0, 1, 2 };
-	static const char *jsons[] = { "{\"a\":1}", "{\"a\":{\"b\":2},\"c\":1.5}", "[1]", "{", "5", NULL, "{\"a\":1,\"a\":2}", "{}" };
+	static const char *jsons[] = { "{\"a\":1}", "{\"a\":{\"b\":2},\"c\":1.5}", "[1]", "{", "5", NULL, "{\"a\":1,\"a\":2}", "{}", "{\"a\":null,\"b\":null}" };
 	for (int n = 0; n < 4; n++) {
 		for (int r = 0; r < 2; r++) {
 			for (int i = 0; i < 3; i++) {
